@@ -80,6 +80,9 @@ type Scenario struct {
 	Base     string      `json:"base,omitempty"`
 	Setup    []Op        `json:"setup,omitempty"`
 	Variants []Variant   `json:"variants,omitempty"`
+	// OnlyOwnOracles: the world contains input whose meaning the models of other properties leave open (e.g.
+	// package tags that contradict each other in two files): only the oracles of Property are evaluated.
+	OnlyOwnOracles bool `json:"only_own_oracles,omitempty"`
 	// LinkedRoot: the module is reached through a path one component of which is a symbolic link (a
 	// workspace on another volume, /tmp on macOS, a linked home directory); every path the harness uses
 	// is the spelling with the link.
